@@ -473,6 +473,8 @@ def iter_items_tail(interp, v):
         return items, tail
     if isinstance(v, DictV):
         return [a for a, b in v.pairs], None
+    if isinstance(v, Obj) and getattr(v, 'nt_fields', None):
+        return [v.attrs[f] for f in v.nt_fields], None
     if isinstance(v, Const) and isinstance(v.value, str):
         return [Const(c) for c in v.value], None
     if isinstance(v, Const) and isinstance(v.value, (tuple, list)):
@@ -516,6 +518,10 @@ def index_value(interp, base, idx):
             interp.imprecise('dict lookup with unknown key')
             return Top('dict item')
         raise Raised(Exc('KeyError', repr(idx)))
+    if isinstance(base, Obj) and getattr(base, 'nt_fields', None) and isinstance(idx, Const) and isinstance(idx.value, int):
+        if -len(base.nt_fields) <= idx.value < len(base.nt_fields):
+            return base.attrs[base.nt_fields[idx.value]]
+        raise Raised(Exc('IndexError', 'tuple index out of range'))
     if isinstance(base, ListV):
         if isinstance(idx, Const) and isinstance(idx.value, int) and not isinstance(idx.value, bool):
             i = idx.value
@@ -926,7 +932,7 @@ def call_builtin(interp, name, args, kwargs):
     if name in ('hex', 'bin', 'oct'):
         return Atom(name, args, 'str')
     if name in ('divmod',):
-        return ListV([Atom('floordiv', args, None), Atom('mod', args, None)], 'tuple')
+        return ListV([binop(interp, ast.FloorDiv(), args[0], args[1]), binop(interp, ast.Mod(), args[0], args[1])], 'tuple')
     if name in ('functools.reduce', 'reduce'):
         fn = args[0]
         items = _drain(interp, args[1])
@@ -1010,12 +1016,28 @@ def call_builtin(interp, name, args, kwargs):
         if short in ('deque',):
             return ListV(iter_items(interp, args[0]) if args else [], 'deque')
         if short == 'namedtuple':
-            return Builtin('namedtuple:' + (args[0].value if isinstance(args[0], Const) else '?'))
+            fields = ''
+            if len(args) > 1:
+                f = args[1]
+                if isinstance(f, Const) and isinstance(f.value, str):
+                    fields = ','.join(f.value.replace(',', ' ').split())
+                elif isinstance(f, ListV) and all(isinstance(i, Const) for i in f.items):
+                    fields = ','.join(str(i.value) for i in f.items)
+            return Builtin('namedtuple:%s:%s' % ((args[0].value if isinstance(args[0], Const) else '?'), fields))
         if short == 'defaultdict':
             return DictV([], default='list' if (args and isinstance(args[0], TypeV) and args[0].name == 'list') else None)
     if name.startswith('namedtuple:'):
-        return Obj(ClassV(None, ast.ClassDef(name=name.split(':')[1], bases=[], keywords=[], body=[], decorator_list=[])),
-                   dict(kwargs))
+        parts = name.split(':')
+        fields = [f for f in (parts[2] if len(parts) > 2 else '').split(',') if f]
+        attrs = {}
+        for f, a in zip(fields, args):
+            attrs[f] = a
+        attrs.update(kwargs)
+        if fields and all(f in attrs for f in fields):
+            attrs = dict((f, attrs[f]) for f in fields)     # field order = tuple order
+        o = Obj(ClassV(None, ast.ClassDef(name=parts[1], bases=[], keywords=[], body=[], decorator_list=[])), attrs)
+        o.nt_fields = fields if fields and all(f in attrs for f in fields) else None
+        return o
     if name.startswith('ply.'):
         return Top('ply object', ignorance=False)
     if name.startswith('os.'):
@@ -1107,6 +1129,8 @@ def call_method(interp, base, attr, args, kwargs, text=''):
         if attr == 'group':
             if not args:
                 return base.groups[0]
+            if len(args) > 1:
+                return ListV([call_method(interp, base, 'group', [a], {}, text) for a in args], 'tuple')
             if isinstance(args[0], Const) and isinstance(args[0].value, int) and args[0].value < len(base.groups):
                 return base.groups[args[0].value]
             if isinstance(args[0], Const) and args[0].value in base.names:
